@@ -3,7 +3,9 @@
   metamorphic (implementation only; this is where regressions are caught)
       op histories (L<i> = Modules.Parse of text i, P = Modules.Process + full dump, G<name> = Modules.GetModule(name) +
       full dump (a second kind of run, compared with GetModule on the fresh set), D<i> = text i offered as a file of the
-      search path only (Process may read it by itself through FindModule), T = a read between the runs:
+      search path only (Process may read it by itself through FindModule), F<i> / R<i> = text i written into another
+      directory / and loaded from there with Modules.Read (which puts that directory on the search path iff the load
+      succeeds), option e = the trees are dumped and compared after runs that returned errors too, T = a read:
       ToEntry, Print, Namespace, InstantiatingModule, ReadOnly on every module, C = ClearEntryCache; command c18proc of
       harness/go/c18.go = resolve.go's process command plus the reads) of length <= 10 over pools of good
       texts (random resolver schemas, typedef chains through imports, identities and identityrefs, imports whose target
@@ -381,7 +383,12 @@ def gen_ops(rnd, texts, maxlen=10):
         else:
             i = rnd.randrange(ngood) if x < 0.78 else rnd.randrange(len(texts))
             if texts[i].get("single") and texts[i]["items"][0].get("file") and rnd.random() < 0.6:
-                ops.append("D%d" % i)          # only as a file of the search path
+                # only as a file: of the search path, or of the directory files are Read from
+                ops.append(("D%d" if rnd.random() < 0.7 else "F%d") % i)
+                continue
+            if rnd.random() < 0.1:
+                ops.append("R%d" % i)          # Modules.Read of a file instead of Modules.Parse of the text
+                loaded += [it["mod"] for it in texts[i]["items"] if it["good"] and it["kind"] == "m"]
                 continue
             ops.append("L%d" % i)
             loaded += [it["mod"] for it in texts[i]["items"] if it["good"] and it["kind"] == "m"]
@@ -399,10 +406,11 @@ CORPUS = dict(
     typedefs=["L0,L2,L3,P,L1,P", "L4,P,L0,P,L1,P", "L3,P,L2,P,L0,P,P",
               "L0,L2,P,L1,G746d", "L0,L2,L3,G7474,L1,G7474,G746d", "L0,L2,G746d,L8,G746d"],   # GetModule after Parse (tm, tt)                    # D56 re-binding, late targets
     identities=["L2,P,L0,P,L1,P", "L3,L1,P,L0,P,P", "L0,L1,L2,L3,P,P"],                    # D56 memoised errors, D42
-    chains=["L0,L1,P,L2,P,L3,P", "L4,L0,P,L1,P", "L2,L0,P,L3,P,L1,P"],                      # failing include, D41
+    chains=["L0,L1,P,L2,P,L3,P", "L4,L0,P,L1,P", "L2,L0,P,L3,P,L1,P", "L0,L1,P,L4,P,P,T,P"],   # failing run after a good one                      # failing include, D41
     revisions=["L4,L5,L6,P,L0,P,L1,P,L2,P", "L3,L4,P,L0,P", "L1,L4,P,L3,P,L2,P", "L1,P,L0,P,P"],   # older after newer
     disk=["D0,L1,P,P", "D0,D2,D4,L1,L3,L5,P,P,P", "D4,L5,P,P,L6,D0,P,P", "D2,L3,P,P", "L1,P,D0,P,P", "D0,L6,P,L1,P,P",   # Process reads
-          "D0,L1,T,P,T,P,L0,P"],                                                                             # from the path
+          "D0,L1,T,P,T,P,L0,P",
+          "F0,R7,L1,P,P", "F0,R8,R9,L1,P,L6,P", "F0,R1,P,P", "F4,R5,P,F0,L6,L1,P,P", "F2,R10,L3,P,R3,P"],   # D73: Read of files                                                                             # from the path
     typeerrs=["L6,P,L3,P,P", "L0,L7,P,L1,P,L2,P", "L4,P,L0,P,L3,P,L1,P,L2,P", "L5,L3,L0,P,L1,P,L2,P",   # Type.resolve
               "L8,L0,P,L1,P,L2,P", "L2,L4,L5,L3,P,L1,P,L0,P",                                           # error paths
               "L11,P,P,L9,P,L10,P,P", "L12,P,P,P", "L13,L9,L11,P,L10,P", "L10,L11,P,L12,P,P"],           # Typedef.resolve
@@ -425,7 +433,8 @@ def corpus_cases():
                     mixed.append("L%d" % bad_ix[j % len(bad_ix)])
                     j, room = j + 1, room - 1
                 mixed.append(op)
-            cases.append(Case([fam, "corpus+bad"], texts, mixed, "-"))
+            cases.append(Case([fam, "corpus+bad"], texts, mixed, "e"))
+            cases.append(Case([fam, "corpus+e"], texts, ops, "e"))
         # D43 shapes alone and followed by the module itself
         names = {t["name"]: i for i, t in enumerate(texts)}
         for nm in ("part.yang", "twice.yang", "bg.yang", "gg.yang"):
@@ -459,22 +468,40 @@ def parse(line):
     return json.loads(line)
 
 
+def parse_for(c, line):
+    """parse; a file loaded with Modules.Read carries its full path as name while Process sorts the errors (the harness
+    cuts the directory off afterwards): for histories with R ops the errors are compared in string order"""
+    j = parse(line)
+    if j is not None and any(o.startswith("R") for o in c.ops):
+        for run in j["runs"]:
+            pairs = sorted(zip(run["errors"], run["errpos"]))
+            run["errors"], run["errpos"] = [e for e, _ in pairs], [q for _, q in pairs]
+    return j
+
+
 def is_run(op):
     """P = Process, G<namehex> = GetModule(name) (Process + ToEntry): both produce a dump"""
     return op == "P" or op.startswith("G")
 
 
 def split_history(ops, loads):
-    """per run (P or G) of the history: (indices (into texts) of the loads accepted before it, in load order; the op)"""
-    out, acc, li, disk = [], [], 0, []
+    """per run (P or G) of the history: (indices (into texts) of the loads accepted before it, in load order; the op;
+    the texts that are legitimately available as files: offered on the search path (D), or lying in the directory of
+    a file whose Read succeeded (F, R))"""
+    out, acc, li, disk, rdir, read_ok = [], [], 0, [], [], False
     for op in ops:
         if is_run(op):
-            out.append((list(acc), op, list(disk)))
+            out.append((list(acc), op, list(disk) + (list(rdir) if read_ok else [])))
         elif op.startswith("D"):
             disk.append(int(op[1:]))
-        elif op.startswith("L"):
+        elif op.startswith("F"):
+            rdir.append(int(op[1:]))
+        elif op.startswith("L") or op.startswith("R"):
+            if op.startswith("R"):
+                rdir.append(int(op[1:]))
             if loads[li] == "ok":
                 acc.append(int(op[1:]))
+                read_ok = read_ok or op.startswith("R")
             li += 1
     return out
 
@@ -483,6 +510,14 @@ def only_reads_between(ops, p):
     """no load and no file offered between the (p-1)-th and the p-th run op"""
     runs = [k for k, op in enumerate(ops) if is_run(op)]
     return all(op in ("T", "C") for op in ops[runs[p - 1] + 1: runs[p]])
+
+
+def stray_files(texts, accop, loaded):
+    """modules of the set that came from a file no successful operation had made available (D73: the directory of a
+    file whose Read failed stayed on the search path)"""
+    acc, op, disk = accop
+    ok = {texts[i]["name"] for i in acc} | {texts[i]["name"] for i in disk}
+    return sorted({s.rsplit(":", 2)[0] for s in loaded} - ok)
 
 
 def batch_for(texts, accop, opts="-", loaded=()):
@@ -521,9 +556,14 @@ def first_diff(a, b, path=""):
 
 class Case:
     def __init__(self, fams, texts, ops, opts="-", hops=None):
+        if any(o[0] in "DFR" for o in ops):
+            # a read of a set whose last run failed may itself fetch modules from the search path (FindModuleByPrefix ->
+            # FindModule -> Read): with files around the trees are dumped after clean runs only
+            opts = opts.replace("e", "") or "-"
         self.fams, self.texts, self.ops, self.opts = fams, texts, ops, opts
         # the history without ClearEntryCache, with namespace lookups (c18hist only)
-        self.hops = hops if hops is not None else ["P" if o.startswith("G") else o for o in ops if o != "C" and not o.startswith("D")]
+        self.hops = hops if hops is not None else ["P" if o.startswith("G") else ("L" + o[1:] if o.startswith("R") else o) for o in ops
+                                                     if o != "C" and o[0] not in "DF"]
 
     def replay(self):
         return dict(families=self.fams, ops=self.ops, hops=self.hops, opts=self.opts, texts=self.texts)
@@ -540,7 +580,7 @@ def metamorphic(res, cases, stats, max_report=3):
     batch_lines = {}
     parsed = []
     for c, o in zip(cases, hist_out):
-        j = parse(o)
+        j = parse_for(c, o)
         parsed.append(j)
         if j is None:
             continue
@@ -571,12 +611,20 @@ def metamorphic(res, cases, stats, max_report=3):
             stats["process_runs"] += 1
             run = j["runs"][p]
             stats["runs_with_errors" if run["errors"] else "runs_clean"] += 1
+            stray = stray_files(c.texts, acc, j["loaded"][p])
+            if stray:
+                stats["differences"] += 1
+                if reported < max_report:
+                    reported += 1
+                    what = "run #%d: the set contains %s, read from a directory that no successful load had put on the search path" % (p + 1, stray)
+                    res.violation("%s; families=%s ops=%s loads=%s" % (what, c.fams, ",".join(c.ops), j["loads"]),
+                                  dict(c.replay(), kind="metamorphic", p_index=p, history_line=hl, diff=what))
             bl = batch_for(c.texts, acc, c.opts, j["loaded"][p])
-            b = parse(batch_lines[bl])
+            b = parse_for(c, batch_lines[bl])
             if b is None or any(l != "ok" for l in b["loads"]) or b["runs"][0] != run:
                 second.append((c, hl, p, run, bl, b))
             # processing twice = once, directly: two runs of the same kind with nothing but reads in between
-            if p > 0 and accs[p - 1] == acc and only_reads_between(c.ops, p):
+            if p > 0 and accs[p - 1] == acc and only_reads_between(c.ops, p) and j["loaded"][p - 1] == j["loaded"][p]:
                 stats["twice_pairs"] += 1
                 if j["runs"][p - 1] != run:
                     stats["differences"] += 1
@@ -595,8 +643,8 @@ def metamorphic(res, cases, stats, max_report=3):
         rer += [hl] * FL + [bl] * FL
     rout = run_go(rer)
     for k, (c, hl, p, run, bl, b) in enumerate(second):
-        hs = [parse(o) for o in rout[2 * FL * k: 2 * FL * k + FL]]
-        bs = [parse(o) for o in rout[2 * FL * k + FL: 2 * FL * (k + 1)]]
+        hs = [parse_for(c, o) for o in rout[2 * FL * k: 2 * FL * k + FL]]
+        bs = [parse_for(c, o) for o in rout[2 * FL * k + FL: 2 * FL * (k + 1)]]
         hd = [json.dumps(run, sort_keys=True)] + [json.dumps(h["runs"][p], sort_keys=True) for h in hs if h]
         bd = [json.dumps(x["runs"][0], sort_keys=True) for x in bs + [b]
               if x and x.get("runs") and all(l == "ok" for l in x["loads"])]
@@ -606,7 +654,7 @@ def metamorphic(res, cases, stats, max_report=3):
         stats["differences"] += 1
         if reported < max_report:
             reported += 1
-            j = parse(hist_out[cases.index(c)])
+            j = parse_for(c, hist_out[cases.index(c)])
             loaddiff = b is None or any(l != "ok" for l in b["loads"])
             what = ("a text accepted by the history is rejected by a fresh set" if loaddiff else
                     "Process #%d of the history differs from a fresh batch run on the accepted texts: %s" % (
@@ -788,8 +836,10 @@ def with_ns_ops(rnd, c):
     nss = sorted({it["ns"] for t in c.texts for it in t["items"] if it["good"] and it["ns"]}) + ["urn:none"]
     out = []
     for op in c.ops:
-        if op == "C" or op.startswith("D"):
-            continue                      # ClearEntryCache and files on the search path exist in c18proc only
+        if op == "C" or op[0] in "DF":
+            continue                      # ClearEntryCache and files exist in c18proc only
+        if op.startswith("R"):
+            op = "L" + op[1:]             # Read of a file = Parse of its text
         if op.startswith("G"):
             op = "P"                      # GetModule = Process + ToEntry
         out.append(op)
@@ -803,7 +853,7 @@ def gen_cases(rnd, n, which=None):
     for _ in range(n):
         fams, texts = universe(rnd, which)
         ops = gen_ops(rnd, texts)
-        c = Case(fams, texts, ops, rnd.choice(["-", "-", "q", "f"]))
+        c = Case(fams, texts, ops, rnd.choice(["-", "e", "q", "f", "e", "eq", "ef"]))
         c.hops = with_ns_ops(rnd, c)
         cases.append(c)
     return cases
